@@ -17,53 +17,49 @@ namespace GolibsVerif.C19
 /-! ## Attribute accumulation: every derivation tree, every growth policy -/
 
 /-- `attrs_path`.  Run any script of `WithAttrs` derivations (from any existing node), `Handle`
-and `Enabled` calls from the root handler, with the records stored anywhere in an arbitrary
-initial heap, under an arbitrary growth policy of `append`.  Then
+and `Enabled` calls and `Set` calls on the `*slog.LevelVar` from the root handler made by
+`NewJSONHybridHandler`, with the records stored anywhere in an arbitrary initial heap, under
+an arbitrary growth policy of `append`.  Then
 
 * the outputs are those of the heap-free reference semantics, in which a node's attributes
-  are the concatenation of the `WithAttrs` arguments along its path from the root, and
+  are the concatenation of the `WithAttrs` arguments along its path from the root (and the
+  level is the constant the options' leveler reported at construction), and
 * at the end every handler ever created still *reads* exactly its path concatenation
   (no later derivation or `Handle` has written into an array it can see). -/
 theorem attrs_path (pol : Policy) (text : Int → Nat → List Attr → Bytes)
-    (encode : Bytes → Bytes → Bytes) (lvl0 : Int) (recs : List Record) (hp0 : Heap)
+    (encode : Bytes → Bytes → Bytes) (lvl0 : Leveler) (lv0 : Int) (recs : List Record) (hp0 : Heap)
     (hrecs : ∀ r ∈ recs, r.wf hp0) (ops : List Op) (w' : World) (outs : List Out)
-    (h : World.run pol text encode recs (rootWorld hp0 lvl0) ops = some (w', outs)) :
-    ∃ paths, specRun text encode lvl0 (recs.map (Record.info hp0)) [[]] ops = some (paths, outs) ∧
-      w'.handlers.map (fun hd => view w'.heap hd.attrs) = paths := by
-  have hs := run_sim pol text encode lvl0 recs hp0 hrecs ops (rootWorld hp0 lvl0) [[]]
-    (rootWorld_inv hp0 lvl0) ⟨[], by simp [rootWorld]⟩
-  rw [h] at hs
-  cases h2 : specRun text encode lvl0 (recs.map (Record.info hp0)) [[]] ops with
-  | none => rw [h2] at hs; exact hs.elim
-  | some q =>
-    obtain ⟨paths, outs'⟩ := q
-    rw [h2] at hs
-    obtain ⟨ho, hinv, _⟩ := hs
-    subst ho
-    refine ⟨paths, rfl, ?_⟩
-    apply List.ext_getElem?
-    intro i
-    rw [List.getElem?_map]
-    cases hh : w'.handlers[i]? with
-    | none => simp [(hinv.none_iff i).mp hh]
-    | some hd => simp [(hinv.node i hd hh).2.2]
+    (h : World.run pol text encode recs (rootWorld hp0 lvl0 lv0) ops = some (w', outs)) :
+    ∃ s', specRun text encode (.const (lvl0.get lv0)) (recs.map (Record.info hp0)) (rootSpec lv0) ops =
+        some (s', outs) ∧
+      w'.handlers.map (fun hd => view w'.heap hd.attrs) = s'.paths ∧ w'.lvar = s'.lvar := by
+  rw [rootWorld_eq] at h
+  obtain ⟨s', hspec, hinv⟩ := run_root pol text encode _ lv0 recs hp0 hrecs ops w' outs h
+  refine ⟨s', hspec, ?_, hinv.lvar⟩
+  apply List.ext_getElem?
+  intro i
+  rw [List.getElem?_map]
+  cases hh : w'.handlers[i]? with
+  | none => simp [(hinv.none_iff i).mp hh]
+  | some hd => simp [(hinv.node i hd hh).2.2]
 
 /-- The model never gets stuck where the reference semantics is defined, and vice versa:
-the two agree on the whole list of outputs (or both reject an ill-formed script). -/
-theorem tree_refines_spec (pol : Policy) (text : Int → Nat → List Attr → Bytes)
-    (encode : Bytes → Bytes → Bytes) (lvl0 : Int) (recs : List Record) (hp0 : Heap)
+the two agree on the whole list of outputs (or both reject an ill-formed script) — for a root
+that stores any leveler `lvl0` (asked on every `Enabled` call) … -/
+theorem tree_refines_spec_dyn (pol : Policy) (text : Int → Nat → List Attr → Bytes)
+    (encode : Bytes → Bytes → Bytes) (lvl0 : Leveler) (lv0 : Int) (recs : List Record) (hp0 : Heap)
     (hrecs : ∀ r ∈ recs, r.wf hp0) (ops : List Op) :
-    (World.run pol text encode recs (rootWorld hp0 lvl0) ops).map Prod.snd =
-      (specRun text encode lvl0 (recs.map (Record.info hp0)) [[]] ops).map Prod.snd := by
-  have hs := run_sim pol text encode lvl0 recs hp0 hrecs ops (rootWorld hp0 lvl0) [[]]
-    (rootWorld_inv hp0 lvl0) ⟨[], by simp [rootWorld]⟩
-  cases h1 : World.run pol text encode recs (rootWorld hp0 lvl0) ops with
+    (World.run pol text encode recs (rootWorldDyn hp0 lvl0 lv0) ops).map Prod.snd =
+      (specRun text encode lvl0 (recs.map (Record.info hp0)) (rootSpec lv0) ops).map Prod.snd := by
+  have hs := run_sim pol text encode lvl0 recs hp0 hrecs ops (rootWorldDyn hp0 lvl0 lv0) (rootSpec lv0)
+    (rootWorldDyn_inv hp0 lvl0 lv0) ⟨[], by simp [rootWorldDyn]⟩
+  cases h1 : World.run pol text encode recs (rootWorldDyn hp0 lvl0 lv0) ops with
   | none =>
-    cases h2 : specRun text encode lvl0 (recs.map (Record.info hp0)) [[]] ops with
+    cases h2 : specRun text encode lvl0 (recs.map (Record.info hp0)) (rootSpec lv0) ops with
     | none => rfl
     | some q => rw [h1, h2] at hs; exact hs.elim
   | some pr =>
-    cases h2 : specRun text encode lvl0 (recs.map (Record.info hp0)) [[]] ops with
+    cases h2 : specRun text encode lvl0 (recs.map (Record.info hp0)) (rootSpec lv0) ops with
     | none => rw [h1, h2] at hs; exact hs.elim
     | some q =>
       rw [h1, h2] at hs
@@ -72,14 +68,24 @@ theorem tree_refines_spec (pol : Policy) (text : Int → Nat → List Attr → B
       simp only [Option.map_some, Option.some.injEq]
       exact hs.1
 
+/-- … and for the root the code makes: the reference run with the constant level the options'
+leveler reported at construction. -/
+theorem tree_refines_spec (pol : Policy) (text : Int → Nat → List Attr → Bytes)
+    (encode : Bytes → Bytes → Bytes) (lvl0 : Leveler) (lv0 : Int) (recs : List Record) (hp0 : Heap)
+    (hrecs : ∀ r ∈ recs, r.wf hp0) (ops : List Op) :
+    (World.run pol text encode recs (rootWorld hp0 lvl0 lv0) ops).map Prod.snd =
+      (specRun text encode (.const (lvl0.get lv0)) (recs.map (Record.info hp0)) (rootSpec lv0) ops).map
+        Prod.snd :=
+  tree_refines_spec_dyn pol text encode _ lv0 recs hp0 hrecs ops
+
 /-- The capacity choices of `append` are unobservable. -/
 theorem policy_independent (pol₁ pol₂ : Policy) (text : Int → Nat → List Attr → Bytes)
-    (encode : Bytes → Bytes → Bytes) (lvl0 : Int) (recs : List Record) (hp0 : Heap)
+    (encode : Bytes → Bytes → Bytes) (lvl0 : Leveler) (lv0 : Int) (recs : List Record) (hp0 : Heap)
     (hrecs : ∀ r ∈ recs, r.wf hp0) (ops : List Op) :
-    (World.run pol₁ text encode recs (rootWorld hp0 lvl0) ops).map Prod.snd =
-      (World.run pol₂ text encode recs (rootWorld hp0 lvl0) ops).map Prod.snd := by
-  rw [tree_refines_spec pol₁ text encode lvl0 recs hp0 hrecs,
-    tree_refines_spec pol₂ text encode lvl0 recs hp0 hrecs]
+    (World.run pol₁ text encode recs (rootWorld hp0 lvl0 lv0) ops).map Prod.snd =
+      (World.run pol₂ text encode recs (rootWorld hp0 lvl0 lv0) ops).map Prod.snd := by
+  rw [tree_refines_spec pol₁ text encode lvl0 lv0 recs hp0 hrecs,
+    tree_refines_spec pol₂ text encode lvl0 lv0 recs hp0 hrecs]
 
 /-- `sibling_isolation`: derive two children from one handler, the second when the first
 already exists (so whatever spare capacity the first derivation left is there); afterwards,
@@ -117,7 +123,7 @@ theorem noClip_breaks_isolation :
       let d₁ := h.withAttrsNoClip pol hp as₁
       let d₂ := h.withAttrsNoClip pol d₁.1 as₂
       view d₂.1 d₁.2.attrs ≠ view hp h.attrs ++ as₁ := by
-  refine ⟨fun _ _ _ _ => 1, [[.user 0 false, .zero]], { level := 0, attrs := { arr := 0, len := 1, cap := 2 } },
+  refine ⟨fun _ _ _ _ => 1, [[.user 0 false, .zero]], { level := .const 0, attrs := { arr := 0, len := 1, cap := 2 } },
     [.user 1 false], [.user 2 false], by decide, by decide⟩
 
 /-! ## One `Handle` call -/
@@ -159,7 +165,7 @@ twice by a handler with one attribute prints 9 attributes the first time and a t
 theorem noClone_violates :
     let pol : Policy := fun _ _ _ _ => 1
     let hp : Heap := [[.user 5 false, .user 6 false, .user 7 false, .zero], [.user 9 false]]
-    let h : Handler := { level := 0, attrs := { arr := 1, len := 1, cap := 1 } }
+    let h : Handler := { level := .const 0, attrs := { arr := 1, len := 1, cap := 1 } }
     let r : Record := { level := 0, rid := 0, back := { arr := 0, len := 3, cap := 4 }
                         front := [.user 0 false, .user 1 false, .user 2 false, .user 3 false, .user 4 false] }
     let enc : Bytes → Bytes → Bytes := fun _ m => m
@@ -266,27 +272,130 @@ theorem encoded_line_wellformed (sev msg : Bytes) :
     parseLine (goJsonEncode sev msg) = some (sanitize sev, sanitize msg) :=
   ⟨goJsonEncode_oneLine sev msg, parseLine_goJsonEncode sev msg⟩
 
-/-- `enabled_iff` -/
-theorem enabled_iff (h : Handler) (l : Int) : h.enabled l = true ↔ l ≥ h.level := by
+/-! ## `Enabled`: the configured level, under both readings of a `*slog.LevelVar` -/
+
+/-- `enabled_iff`: `Enabled(l)` holds iff `l` is at least the level the handler's `slog.Leveler`
+field reports (`lvar` = what the `*slog.LevelVar` currently holds). -/
+theorem enabled_iff (h : Handler) (lvar : Int) (l : Int) :
+    h.enabled lvar l = true ↔ l ≥ h.level.get lvar := by
   simp [Handler.enabled]
 
-/-- `Enabled` on every handler of every derivation tree answers for the root's level. -/
+/-- `enabled_derived` (the code: `NewJSONHybridHandler` asks the options' leveler once).  Run any
+script of derivations, `Handle`, `Enabled` and `Set` calls on the `*slog.LevelVar`; every
+handler ever created — root, children, grandchildren, derived before or after any `Set` — is
+enabled for `l` iff `l` is at least the level the leveler reported *at construction*, whatever
+the variable holds now or later (`lvar` is arbitrary): `Set` never changes an answer. -/
 theorem enabled_derived (pol : Policy) (text : Int → Nat → List Attr → Bytes)
-    (encode : Bytes → Bytes → Bytes) (lvl0 : Int) (recs : List Record) (hp0 : Heap)
+    (encode : Bytes → Bytes → Bytes) (lvl0 : Leveler) (lv0 : Int) (recs : List Record) (hp0 : Heap)
     (hrecs : ∀ r ∈ recs, r.wf hp0) (ops : List Op) (w' : World) (outs : List Out)
-    (h : World.run pol text encode recs (rootWorld hp0 lvl0) ops = some (w', outs))
+    (h : World.run pol text encode recs (rootWorld hp0 lvl0 lv0) ops = some (w', outs))
+    (hd : Handler) (hmem : hd ∈ w'.handlers) (lvar l : Int) :
+    hd.enabled lvar l = true ↔ l ≥ lvl0.get lv0 := by
+  rw [rootWorld_eq] at h
+  obtain ⟨s', _, hinv⟩ := run_root pol text encode _ lv0 recs hp0 hrecs ops w' outs h
+  obtain ⟨i, hi⟩ := List.getElem?_of_mem hmem
+  rw [enabled_iff, (hinv.node i hd hi).1]
+  rfl
+
+/-- `enabled_derived_dyn` (the other reading: the root stores the leveler, `newHandlerDyn`).
+After any script every handler of the tree is enabled for `l` iff `l` is at least what the
+root's leveler reports in the final world — the *current* value of the `*slog.LevelVar`. -/
+theorem enabled_derived_dyn (pol : Policy) (text : Int → Nat → List Attr → Bytes)
+    (encode : Bytes → Bytes → Bytes) (lvl0 : Leveler) (lv0 : Int) (recs : List Record) (hp0 : Heap)
+    (hrecs : ∀ r ∈ recs, r.wf hp0) (ops : List Op) (w' : World) (outs : List Out)
+    (h : World.run pol text encode recs (rootWorldDyn hp0 lvl0 lv0) ops = some (w', outs))
     (hd : Handler) (hmem : hd ∈ w'.handlers) (l : Int) :
-    hd.enabled l = true ↔ l ≥ lvl0 := by
-  have hs := run_sim pol text encode lvl0 recs hp0 hrecs ops (rootWorld hp0 lvl0) [[]]
-    (rootWorld_inv hp0 lvl0) ⟨[], by simp [rootWorld]⟩
-  rw [h] at hs
-  cases h2 : specRun text encode lvl0 (recs.map (Record.info hp0)) [[]] ops with
-  | none => rw [h2] at hs; exact hs.elim
-  | some q =>
-    rw [h2] at hs
-    obtain ⟨i, hi⟩ := List.getElem?_of_mem hmem
-    have := (hs.2.1.node i hd hi).1
-    rw [enabled_iff, this]
+    hd.enabled w'.lvar l = true ↔ l ≥ lvl0.get w'.lvar := by
+  obtain ⟨s', _, hinv⟩ := run_root pol text encode lvl0 lv0 recs hp0 hrecs ops w' outs h
+  obtain ⟨i, hi⟩ := List.getElem?_of_mem hmem
+  rw [enabled_iff, (hinv.node i hd hi).1]
+
+/-- … spelled out for a root that stores a `*slog.LevelVar`: every handler of the tree —
+whenever it was derived — is enabled for `l` iff `l` is at least the value last stored into
+the variable (its initial value if the script never calls `Set`). -/
+theorem enabled_follows_levelVar_dyn (pol : Policy) (text : Int → Nat → List Attr → Bytes)
+    (encode : Bytes → Bytes → Bytes) (lv0 : Int) (recs : List Record) (hp0 : Heap)
+    (hrecs : ∀ r ∈ recs, r.wf hp0) (ops : List Op) (w' : World) (outs : List Out)
+    (h : World.run pol text encode recs (rootWorldDyn hp0 .var lv0) ops = some (w', outs))
+    (hd : Handler) (hmem : hd ∈ w'.handlers) (l : Int) :
+    hd.enabled w'.lvar l = true ↔ l ≥ lastLevel lv0 ops := by
+  rw [enabled_derived_dyn pol text encode .var lv0 recs hp0 hrecs ops w' outs h hd hmem l,
+    run_lvar pol text encode recs ops _ w' outs h]
+  rfl
+
+/-- `tree_consistent` (holds under both readings; stated for a root storing any leveler, of
+which the code's root is the instance `rootWorld_eq`): at any point of any script, all
+handlers of the tree give the same answer to `Enabled(l)`. -/
+theorem tree_consistent_dyn (pol : Policy) (text : Int → Nat → List Attr → Bytes)
+    (encode : Bytes → Bytes → Bytes) (lvl0 : Leveler) (lv0 : Int) (recs : List Record) (hp0 : Heap)
+    (hrecs : ∀ r ∈ recs, r.wf hp0) (ops : List Op) (w' : World) (outs : List Out)
+    (h : World.run pol text encode recs (rootWorldDyn hp0 lvl0 lv0) ops = some (w', outs))
+    (hd₁ hd₂ : Handler) (hm₁ : hd₁ ∈ w'.handlers) (hm₂ : hd₂ ∈ w'.handlers) (lvar l : Int) :
+    hd₁.enabled lvar l = hd₂.enabled lvar l := by
+  obtain ⟨s', _, hinv⟩ := run_root pol text encode lvl0 lv0 recs hp0 hrecs ops w' outs h
+  obtain ⟨i, hi⟩ := List.getElem?_of_mem hm₁
+  obtain ⟨j, hj⟩ := List.getElem?_of_mem hm₂
+  unfold Handler.enabled
+  rw [(hinv.node i hd₁ hi).1, (hinv.node j hd₂ hj).1]
+
+/-- `tree_consistent` for the root `NewJSONHybridHandler` makes -/
+theorem tree_consistent (pol : Policy) (text : Int → Nat → List Attr → Bytes)
+    (encode : Bytes → Bytes → Bytes) (lvl0 : Leveler) (lv0 : Int) (recs : List Record) (hp0 : Heap)
+    (hrecs : ∀ r ∈ recs, r.wf hp0) (ops : List Op) (w' : World) (outs : List Out)
+    (h : World.run pol text encode recs (rootWorld hp0 lvl0 lv0) ops = some (w', outs))
+    (hd₁ hd₂ : Handler) (hm₁ : hd₁ ∈ w'.handlers) (hm₂ : hd₂ ∈ w'.handlers) (lvar l : Int) :
+    hd₁.enabled lvar l = hd₂.enabled lvar l :=
+  tree_consistent_dyn pol text encode _ lv0 recs hp0 hrecs ops w' outs (rootWorld_eq hp0 lvl0 lv0 ▸ h)
+    hd₁ hd₂ hm₁ hm₂ lvar l
+
+/-- The answers of the `Enabled` calls *inside* a script are those of the reference semantics
+(`tree_refines_spec`, `tree_refines_spec_dyn`); spelled out for one call after an arbitrary
+prefix, on a root that stores `lvl0`: the answer is `l ≥` the leveler's value at that moment. -/
+theorem enabled_after_dyn (pol : Policy) (text : Int → Nat → List Attr → Bytes)
+    (encode : Bytes → Bytes → Bytes) (lvl0 : Leveler) (lv0 : Int) (recs : List Record) (hp0 : Heap)
+    (hrecs : ∀ r ∈ recs, r.wf hp0) (ops : List Op) (w' : World) (outs : List Out)
+    (h : World.run pol text encode recs (rootWorldDyn hp0 lvl0 lv0) ops = some (w', outs))
+    (n : Nat) (hn : n < w'.handlers.length) (l : Int) :
+    World.run pol text encode recs (rootWorldDyn hp0 lvl0 lv0) (ops ++ [.enabled n l]) =
+      some (w', outs ++ [.en (decide (l ≥ lvl0.get (lastLevel lv0 ops)))]) := by
+  have hl : w'.lvar = lastLevel lv0 ops := run_lvar pol text encode recs ops _ w' outs h
+  rw [run_snoc pol text encode recs (.enabled n l) ops _ w' outs h]
+  obtain ⟨hd, hhd⟩ : ∃ hd, w'.handlers[n]? = some hd := ⟨w'.handlers[n], List.getElem?_eq_getElem hn⟩
+  have hmem : hd ∈ w'.handlers := List.mem_of_getElem? hhd
+  have hen := enabled_derived_dyn pol text encode lvl0 lv0 recs hp0 hrecs ops w' outs h hd hmem l
+  have hb : hd.enabled w'.lvar l = decide (l ≥ lvl0.get (lastLevel lv0 ops)) := by
+    rw [← hl]
+    cases hv : hd.enabled w'.lvar l with
+    | true => exact (decide_eq_true (hen.mp hv)).symm
+    | false =>
+      have : ¬ (l ≥ lvl0.get w'.lvar) := fun hc => by rw [hen.mpr hc] at hv; cases hv
+      exact (decide_eq_false this).symm
+  simp only [World.step, hhd, Option.bind_eq_bind, Option.bind_some, Option.pure_def, Option.map_some, hb]
+
+/-- … and on the root the code makes: after any prefix, with any `Set` calls in it, `Enabled(l)`
+on any existing node answers `l ≥` the level at construction. -/
+theorem enabled_after (pol : Policy) (text : Int → Nat → List Attr → Bytes)
+    (encode : Bytes → Bytes → Bytes) (lvl0 : Leveler) (lv0 : Int) (recs : List Record) (hp0 : Heap)
+    (hrecs : ∀ r ∈ recs, r.wf hp0) (ops : List Op) (w' : World) (outs : List Out)
+    (h : World.run pol text encode recs (rootWorld hp0 lvl0 lv0) ops = some (w', outs))
+    (n : Nat) (hn : n < w'.handlers.length) (l : Int) :
+    World.run pol text encode recs (rootWorld hp0 lvl0 lv0) (ops ++ [.enabled n l]) =
+      some (w', outs ++ [.en (decide (l ≥ lvl0.get lv0))]) :=
+  enabled_after_dyn pol text encode _ lv0 recs hp0 hrecs ops w' outs (rootWorld_eq hp0 lvl0 lv0 ▸ h) n hn l
+
+/-- `frozenChildren_inconsistent`: a handler that follows its `*slog.LevelVar` while the
+children it derives keep the level seen at derivation (`withAttrsFrozen`) violates
+`tree_consistent` under either reading: LevelVar at 0, derive a child, `Set(8)` — `Enabled(4)`
+is now false on the root (as under the reading "current value") and still true on the child (as
+under the reading "value at construction"). -/
+theorem frozenChildren_inconsistent :
+    let root := newHandlerDyn .var
+    let child := (root.withAttrsFrozen (fun _ _ _ _ => 1) [] 0 [.user 0 false]).2
+    -- before the `Set` they agree
+    root.enabled 0 4 = true ∧ child.enabled 0 4 = true ∧
+    -- after `Set(8)`
+    root.enabled 8 4 = false ∧ child.enabled 8 4 = true := by
+  refine ⟨by decide, by decide, by decide, by decide⟩
 
 /-! ## Concurrency: all interleavings of `Handle` calls sharing one writer (MEM-1) -/
 
@@ -500,6 +609,32 @@ example : JsonContract goJsonEncode := goJson_contract
 example : Record.wf [[.user 5 false, .zero]]
     { level := 0, rid := 0, front := [.user 0 false, .user 1 false, .user 2 false, .user 3 false, .user 4 false],
       back := { arr := 0, len := 1, cap := 2 } } := ⟨by decide, by decide⟩
+
+/-- a concrete script — LevelVar at 0 (INFO): derive a child and a grandchild, ask both
+`Enabled(4)`, `Set(8)`, ask root, child and grandchild again, derive another child after the
+`Set`, `Set(-4)`, ask again — on the root `NewJSONHybridHandler` makes from the variable (the
+answers never change: the level is the 0 read at construction), on a root that stores the
+variable (every node follows it, also the one derived after the `Set`), and on a root with the
+constant level 0 (as the first) -/
+example :
+    let script : List Op :=
+      [.withAttrs 0 [.user 0 false], .withAttrs 1 [.user 1 false], .enabled 1 4, .enabled 2 4,
+       .setLevel 8, .enabled 0 4, .enabled 1 4, .enabled 2 4, .enabled 2 8,
+       .withAttrs 0 [.user 2 false], .enabled 3 4,
+       .setLevel (-4), .enabled 1 0, .enabled 3 (-4), .enabled 3 (-5)]
+    let run := fun w => (World.run (fun _ _ _ _ => 1) (fun _ _ _ => [10]) (fun _ m => m) [] w script).map
+      Prod.snd
+    let frozen : List Out := [.derived, .derived, .en true, .en true,
+       .set, .en true, .en true, .en true, .en true,
+       .derived, .en true,
+       .set, .en true, .en false, .en false]
+    run (rootWorld [] .var 0) = some frozen ∧
+    run (rootWorld [] (.const 0) 5) = some frozen ∧
+    run (rootWorldDyn [] .var 0) = some [.derived, .derived, .en true, .en true,
+       .set, .en false, .en false, .en false, .en true,
+       .derived, .en false,
+       .set, .en true, .en true, .en false] := by
+  refine ⟨by decide, by decide, by decide⟩
 
 open Lts in
 /-- reachable states in which two overlapping calls have both returned exist (so
